@@ -183,6 +183,9 @@ def item (O : Oracle) (t : Ty) (v : Val) (w : String) : Json :=
   | "adaptStr" => resToJson (adaptStr O t (strOfVal v))
   | "ser" => resToJson (ser O t v)
   | "conf" => .bool (conf t v)
+  | "confLit" => .bool (confL true false t v)
+  | "confKey" => .bool (confL false true t v)
+  | "confLoose" => .bool (confL true true t v)
   | "hashable" => .bool (hashable v)
   | "branch" => .str (branchOf t)
   -- second pass on the result of a parse (C10)
@@ -207,7 +210,7 @@ def handle (j : Json) : Json :=
     | none =>
       let O := T.oracle
       let wants := match j.getObjVal? "want" with
-        | .ok (.arr xs) => xs.toList.filterMap fun | .str s => some s | _ => none
+        | .ok (.arr xs) => xs.toList.filterMap fun (x : Json) => match x with | Json.str s => some s | _ => none
         | _ => []
       pure (Json.mkObj (wants.map fun w => (w, item O t v w)))
   match r with
